@@ -739,7 +739,7 @@ Section ShapeMain.
   Proof.
     destruct sc as [[|]|ty fmt enum cst nv sv ik items ai mni mxi uq props req ap mnp mxp allo anyo oneo no ref dflt title];
       try discriminate.
-    cbn [conv classify_s]. intros Hc Hcl. rewrite Hcl in Hc. cbn [conv_node conv_kind] in Hc.
+    cbn [conv classify_s union_of]. intros Hc Hcl. rewrite Hcl in Hc. cbn [conv_node conv_kind] in Hc.
     destruct (type_name cls nm) as [base|]; [|discriminate].
     destruct (conv_props cls cvf base req props s0) as [[ps sa]|]; [|discriminate].
     destruct (Sanitize.unique _); [|discriminate]. injection Hc as <- _. eexists _, _. reflexivity.
@@ -1284,7 +1284,7 @@ Section ShapeMain.
       destruct (assign tei sa). injection Hc as <- _. destruct c; exact I.
     - destruct (assign DJsonValue _). injection Hc as <- _. destruct c; exact I.
     - destruct (ref_id D r); [|discriminate]. injection Hc as <- _. exact I.
-    - destruct tg as [|t|t c|]; (destruct (type_name cls nm); [|discriminate]); (destruct oneo as [bs|]; [|discriminate]).
+    - destruct tg as [|t|t c|]; (destruct (type_name cls nm); [|discriminate]); (destruct (union_of oneo anyo) as [bs|]; [|discriminate]).
       + destruct (conv_xbranches cvf nm bs s0) as [[[rvs dn] sa]|]; [|discriminate]. unfold mk_tagged in Hc.
         destruct (Sanitize.variant_idents cls (map fst rvs)); try discriminate. injection Hc as <- _. exact I.
       + destruct (conv_ibranches cls cvf nm t bs s0) as [[rvs sa]|]; [|discriminate]. unfold mk_tagged in Hc.
@@ -1438,10 +1438,10 @@ Section ShapeMain.
       + destruct (cvf vs (value_name nm') sk) as [[tev s2]|] eqn:Hcv; [|discriminate].
         destruct (assign tev s2) as [vid s3] eqn:Hav. injection Hc as <- <-.
         destruct vs as [[|]|vty vfmt venum vcst vnv vsv vik vitems vai vmni vmxi vuq vprops vreq vap vmnp vmxp vallo vanyo voneo vno vref vdflt vtitle].
-        * cbn [conv] in Hcv. injection Hcv as <- <-.
+        * cbn [conv union_of] in Hcv. injection Hcv as <- <-.
           destruct (json_assigned sk vid s3 Hav Hwk Hnxk Hgk) as (Hw3 & Hf3 & Hns3 & Hg3 & Hid3 & Hl3).
           apply (Hfin s3 vid Hw3 Hf3 Hg3 Hid3).
-          -- cbn [sub_names names_of]. exact Hns3.
+          -- cbn [sub_names names_of union_of]. exact Hns3.
           -- intros T He Hp. exact (get_det_of _ _ _ _ (He _ _ Hl3)).
         * cbn [frag_kind frag] in Hfk. discriminate.
         * cbn [frag_kind] in Hfk. cbn [OForall] in IHap.
@@ -1665,12 +1665,12 @@ Section ShapeMain.
     apply schema_ind_p.
     - intros b Hf. discriminate Hf.
     - intros ty fmt enum cst nv sv ik items ai mni mxi uq props req ap mnp mxp allo anyo oneo no ref dflt title
-             IHitems IHprops IHap IHone.
+             IHitems IHprops IHap IHone _.
       intros Hf nm s0 te s1 Hc Hw Hnx Hg Hnd Hfr.
-      pose proof Hf as Hfi. apply frag_obj_inv in Hfi. destruct Hfi as (nl & k & Hcl & _ & _ & _ & Hone & _).
+      pose proof Hf as Hfi. apply frag_obj_inv in Hfi. destruct Hfi as (nl & k & Hcl & _ & _ & -> & Hone & _).
       cbn [frag] in Hf. rewrite Hcl in Hf. change (frag_kind cls D k items props req ap oneo = true) in Hf.
-      cbn [conv] in Hc. rewrite Hcl in Hc.
-      cbn [names_of] in Hnd, Hfr. rewrite Hcl in Hnd, Hfr.
+      cbn [conv union_of] in Hc. rewrite Hcl in Hc.
+      cbn [names_of union_of] in Hnd, Hfr. rewrite Hcl in Hnd, Hfr.
       change (NoDup (own_names cls (if nl then inner_name nm else nm) k ++
                      sub_names cls k (if nl then inner_name nm else nm) items props ap oneo)) in Hnd.
       change (forall n, In n (own_names cls (if nl then inner_name nm else nm) k ++
@@ -1690,7 +1690,7 @@ Section ShapeMain.
         destruct (assign_ok te' s1' i s2 Ha Hw1 Hfresh) as (Hw2 & Hf2 & Hr2 & _ & Hns2).
         destruct (assign_ents_ok nD te' s1' i s2 Ha Hw1 Hnx1 Hg1 Hte1 Hfresh) as (Hg2 & Hid2 & _).
         split; [exact Hw2|eapply frame_trans; eassumption| |exact Hg2| |exact I|intros T _ _; exact I|].
-        * eexists. split; [cbn [names_of own_of det_name app]; rewrite Hcl; reflexivity|].
+        * eexists. split; [cbn [names_of own_of det_name app union_of]; rewrite Hcl; reflexivity|].
           eapply names_sub_weaken; [eapply names_sub_trans; eassumption|].
           rewrite Hown. unfold own_of. intros x Hx. apply in_app_or in Hx. apply in_or_app.
           destruct Hx; [right|left]; assumption.
@@ -1707,7 +1707,7 @@ Section ShapeMain.
       + destruct (kind_shape items props req ap oneo k nm s0 te s1 Hf IHitems IHprops IHap IHone Hc Hw Hnx Hg Hnd Hfr)
           as [Hw1 Hf1 Hown Hns Hg1 Hte1 Hno Hkk Hpy HS].
         split; [exact Hw1|exact Hf1| |exact Hg1|exact Hte1| | |].
-        * eexists. split; [cbn [names_of]; rewrite Hcl, <- Hown; reflexivity|exact Hns].
+        * eexists. split; [cbn [names_of union_of]; rewrite Hcl, <- Hown; reflexivity|exact Hns].
         * unfold te_kind. cbn [classify_s]. rewrite Hcl.
           destruct te; try exact I; cbn [kkind] in Hkk; rewrite Hkk; reflexivity.
         * intros T He Hp. specialize (Hpy T He Hp). unfold payload_of. destruct te; try exact I; exact Hpy.
